@@ -18,16 +18,18 @@ def get_matched_pairs(H, correction, syndrome):
 
             s_prime = s
             continue_search = True
-            prev_qubit = -1
+            visited_qubits = set()
 
             while continue_search:
                 found_new_qubit = False
                 for q in H[s_prime].nonzero()[1]:
                     # print("q", q)
-                    if correction[q] and q != prev_qubit:
+                    # Never walk along the same qubit twice: a correction
+                    # containing a closed loop must not be followed forever
+                    if correction[q] and q not in visited_qubits:
                         # print("Found new qubit")
                         found_new_qubit = True
-                        prev_qubit = q
+                        visited_qubits.add(q)
                         for i in H[:, q].nonzero()[0]:
                             if i != s_prime:
                                 s_prime = i
